@@ -1,5 +1,10 @@
 import XmppModel.Model.Correlate
 import XmppModel.Lemmas.Correlate
+import XmppModel.Model.Muc
+import XmppModel.Lemmas.Muc
+import XmppModel.Model.IbbReader
+import XmppModel.Model.IbbClose
+import XmppModel.Generated.C06
 /-!
 # C06 — every correlated wait ends exactly once with its own reply or its context error
 
@@ -301,5 +306,81 @@ theorem C06_receipts_outcome_stable {ids s a s'} {i : Nat} {ok : Bool}
     (hs : rstep ids s a = some s') (h : s.wpc i = .done ok) : s'.wpc i = .done ok := by
   cases a <;> simp only [rstep] at hs <;> (try split at hs) <;> (try split at hs) <;>
     (try simp at hs) <;> (try subst hs) <;> simp only [upd] at * <;> grind
+
+/-! ### the MUC and in-band bytestream helpers (instances over the LTSs of C18 / C15)
+
+`Join`, `Leave`, `Read` and `Close` are the extension calls that block on a correlated event.
+The statements below are the C06 clauses (one outcome per call, the call can always end, the
+serve loop is not left waiting) on those models; the models are tied to the code by the C18 / C15
+histories, which the C06 runner replays as well. -/
+section Helpers
+open XmppModel.Muc in
+/-- MUC join: the result of a finished `Join` call only changes when the next call starts -/
+theorem C06_muc_join_one_outcome {s a s'} (hs : Muc.step s a = some s') {c : Nat} {o : Muc.JOut}
+    (h : s.lastJoin c = some o) (hidle : s.jpc c = .idle) (hn : ∀ x, a ≠ .joinStart c x) :
+    s'.lastJoin c = some o := by
+  cases a <;> simp only [Muc.step] at hs <;> (try split at hs) <;> (try split at hs) <;> (try split at hs) <;>
+    (try simp at hs) <;> (try subst hs) <;> (try simp only [Muc.upd] at *) <;> grind
+
+open XmppModel.Muc in
+/-- MUC join: a pending call can always end — with the error reply, with its context, and with
+the self-presence as soon as that arrives -/
+theorem C06_muc_join_progress {s} {c : Nat} (hp : s.jpc c = .pending) :
+    (Muc.step s (.joinError c)).isSome ∧ (Muc.step s (.joinCancel c)).isSome ∧
+    (s.managed (s.req c) = some c → ∃ s', Muc.step s (.avail (s.req c)) = some s' ∧ s'.jpc c = .idle ∧
+      s'.lastJoin c = some .ok) := by
+  refine ⟨by simp [Muc.step, hp], by simp [Muc.step, hp], ?_⟩
+  intro hm; simp [Muc.step, hm, hp, Muc.upd]
+
+open XmppModel.Muc in
+/-- MUC join: the hand-off never leaves the presence handler (the serve loop) waiting: a presence
+is one step whatever the state of the joiner (it either completes the join or is an ordinary
+occupant presence) -/
+theorem C06_muc_presence_never_blocks (s : Muc.St) (a : Nat) :
+    (Muc.step s (.avail a)).isSome ∧ (Muc.step s (.unavail a)).isSome := by
+  constructor
+  · simp only [Muc.step]; split <;> (try split) <;> simp
+  · simp only [Muc.step]; split <;> (try split) <;> simp
+
+open XmppModel.Muc in
+/-- MUC leave: a waiting call can always end, and it ends with success exactly by consuming the
+signal of the unavailable presence, which is never lost (`C18_token_kept`) -/
+theorem C06_muc_leave_progress {s} {c : Nat} (hw : s.lpc c = .waiting) :
+    (Muc.step s (.leaveError c)).isSome ∧ (Muc.step s (.leaveCancel c)).isSome ∧
+    (s.depart c = true → (Muc.step s (.leaveDepart c)).isSome) := by
+  refine ⟨by simp [Muc.step, hw], by simp [Muc.step, hw], ?_⟩
+  intro h; simp [Muc.step, hw, h]
+
+open XmppModel.IbbReader in
+/-- IBB read: the reader's invariant (a waiting reader with data buffered or a closed stream has a
+signal pending), hence a blocked `Read` can always return when there is something to return -/
+theorem C06_ibb_read_progress {s} (hr : IbbReader.Reach true s) (hw : s.rpc = .waiting)
+    (hd : s.buf > 0 ∨ s.closed = true) : (IbbReader.step true s .wake).isSome := by
+  have inv : ∀ {s}, IbbReader.Reach true s →
+      ((s.rpc = .checked ∨ s.rpc = .waiting) → (s.buf > 0 ∨ s.closed = true) → s.tok = true) := by
+    intro s hr
+    induction hr with
+    | init => intro h; simp [IbbReader.init] at h
+    | step _ hs ih =>
+      rename_i s0 s1 a _
+      cases a <;> simp only [IbbReader.step] at hs
+      case packet n => simp at hs; subst hs; simp
+      case close => simp at hs; subst hs; simp
+      all_goals
+        ((try split at hs) <;> (try split at hs) <;> (try simp at hs) <;> (try subst hs) <;>
+          (try (simp only [IbbReader.test] at *; (repeat' split) <;> simp_all <;> omega)))
+  have ht := inv hr (Or.inr hw) hd
+  simp [IbbReader.step, hw, ht]
+
+open XmppModel.IbbClose in
+/-- IBB close: over the control points regenerated from `ibb/conn.go`, `Close` and the
+peer-initiated close take the receiving side down on every exit path, so no `Read` stays blocked
+behind a `Close` that failed half way -/
+theorem C06_ibb_close_ends_read :
+    (Generated.C06.closeProgram.bind parseProgram).map alwaysClosesRead = some true ∧
+    (Generated.C06.closeNoNotifyProgram.bind parseProgram).map alwaysClosesRead = some true := by
+  decide
+
+end Helpers
 
 end XmppModel.Props.C06
